@@ -6,7 +6,10 @@ use std::pin::Pin;
 use std::str::FromStr;
 #[cfg(feature = "gssapi")]
 use std::sync::RwLock;
+#[cfg(not(ldap3_verif))]
 use std::sync::{Arc, Mutex};
+#[cfg(ldap3_verif)]
+use {crate::verif::sync::Mutex, std::sync::Arc};
 use std::task::{Context, Poll};
 use std::time::Duration;
 
@@ -58,6 +61,8 @@ enum ConnType {
     Tls(TlsStream<TcpStream>),
     #[cfg(unix)]
     Unix(UnixStream),
+    #[cfg(ldap3_verif)]
+    Verif(crate::verif::BoxIo),
 }
 
 #[cfg(feature = "tls-rustls")]
@@ -157,6 +162,8 @@ impl AsyncRead for ConnType {
             ConnType::Tls(tls) => Pin::new(tls).poll_read(cx, buf),
             #[cfg(unix)]
             ConnType::Unix(us) => Pin::new(us).poll_read(cx, buf),
+            #[cfg(ldap3_verif)]
+            ConnType::Verif(io) => Pin::new(io).poll_read(cx, buf),
         }
     }
 }
@@ -169,6 +176,8 @@ impl AsyncWrite for ConnType {
             ConnType::Tls(tls) => Pin::new(tls).poll_write(cx, buf),
             #[cfg(unix)]
             ConnType::Unix(us) => Pin::new(us).poll_write(cx, buf),
+            #[cfg(ldap3_verif)]
+            ConnType::Verif(io) => Pin::new(io).poll_write(cx, buf),
         }
     }
 
@@ -179,6 +188,8 @@ impl AsyncWrite for ConnType {
             ConnType::Tls(tls) => Pin::new(tls).poll_flush(cx),
             #[cfg(unix)]
             ConnType::Unix(us) => Pin::new(us).poll_flush(cx),
+            #[cfg(ldap3_verif)]
+            ConnType::Verif(io) => Pin::new(io).poll_flush(cx),
         }
     }
 
@@ -189,6 +200,8 @@ impl AsyncWrite for ConnType {
             ConnType::Tls(tls) => Pin::new(tls).poll_shutdown(cx),
             #[cfg(unix)]
             ConnType::Unix(us) => Pin::new(us).poll_shutdown(cx),
+            #[cfg(ldap3_verif)]
+            ConnType::Verif(io) => Pin::new(io).poll_shutdown(cx),
         }
     }
 }
@@ -662,6 +675,12 @@ impl LdapConnAsync {
         }
     }
 
+    #[cfg(ldap3_verif)]
+    /// Verification hook: build a connection over a caller-supplied transport.
+    pub fn verif_pair(io: crate::verif::BoxIo) -> (Self, Ldap) {
+        Self::conn_pair(ConnType::Verif(io))
+    }
+
     fn conn_pair(ctype: ConnType) -> (Self, Ldap) {
         #[cfg(feature = "gssapi")]
         let client_ctx = Arc::new(Mutex::new(None));
@@ -757,6 +776,8 @@ impl LdapConnAsync {
 
     async fn turn(mut self, mode: LoopMode) -> Result<Self> {
         loop {
+            #[cfg(ldap3_verif)]
+            crate::verif::publish(&self.resultmap, &self.searchmap);
             tokio::select! {
                 req_id = self.id_scrub_rx.recv() => {
                     if let Some(req_id) = req_id {
